@@ -42,23 +42,11 @@ def kv(head):
     return dict(t.split("=", 1) for t in head.split() if "=" in t)
 
 
-MK = re.compile(r"(\d+)@(-?\d+):")
-
-
-def final_equal(a, b, stamp_before_upload=False):
-    """FINAL segments equal, mark times compared with a tolerance of 2 ticks (the plan time is
-    read off the clock between two logged operations)."""
-    if a == b:
-        return True
-    sa, sb = MK.sub(r"\1@T:", a), MK.sub(r"\1@T:", b)
-    if sa != sb:
-        return False
-    ta = sorted((int(p), int(t)) for p, t in MK.findall(a))
-    tb = sorted((int(p), int(t)) for p, t in MK.findall(b))
-    # a = model, b = real.  When a prune was parked INSIDE its index write, the real stamp (taken right before
-    # the write) precedes the completion of the write, which is when the model stamps (atomic index write)
-    ok = lambda m, r: abs(m - r) <= 2 or (stamp_before_upload and r <= m)
-    return len(ta) == len(tb) and all(x[0] == y[0] and ok(x[1], y[1]) for x, y in zip(ta, tb))
+def final_equal(a, b):
+    """FINAL segments of model and real store: compared EXACTLY.  Mark times need no tolerance: the harness
+    reports a mark by the tick of the logged index write it was stamped for (decided by the ORDER of the
+    prune's logged operations, see c10.rs), which is the clock at which the model stamps it."""
+    return a == b
 
 
 SIG = "prune-marks-carry-plan-time"
@@ -161,7 +149,7 @@ def run(ctx):
 
     hist, todo_hist = {}, {}
     stats = {"cases": len(lines), "A_parked": 0, "B_parked": 0, "A_failed": 0, "B_failed": 0, "premise_violated": 0,
-             "outside_literal_premise": 0, "witness_reproduced": 0, "witness_runs": 0, "stamp_precedes_upload": 0, "slow_prune_safe_runs": 0, "lost_inside_premise": 0, "recover_after_expiry": 0,
+             "outside_literal_premise": 0, "witness_reproduced": 0, "witness_runs": 0, "timing_ambiguous": 0, "stamp_precedes_upload": 0, "slow_prune_safe_runs": 0, "lost_inside_premise": 0, "recover_after_expiry": 0,
              "by_scenario": {}}
     nontriv = 0
     mism, viol, samples = [], [], []
@@ -229,10 +217,12 @@ def run(ctx):
             else:
                 stats["lost_inside_premise"] += 1
                 viol.append((ln, h, m))
-        if m:
+        if m and h.get("ambig") == "1":
+            stats["timing_ambiguous"] += 1
+        elif m:
             if mh.get("run") != "ok":
                 mism.append((ln, "real operation log is not a path of the model: " + mh.get("run", "?"), m[:300]))
-            elif not final_equal(mfin, fin, "index" in (h.get("parkopA"), h.get("parkopB")) and h["A"][0] + h["B"][0] != "BB"):
+            elif not final_equal(mfin, fin):
                 mism.append((ln, "final abstract state differs", "model: %s\nreal:  %s" % (mfin[:1500], fin[:1500])))
             elif (mh.get("closed_final") == "true") != (not lost) and int(h["kd"]) > 0:
                 mism.append((ln, "model says closed_final=%s, real oracle lost=%s" % (mh.get("closed_final"), lost), m[:300]))
